@@ -31,18 +31,27 @@ def has (c : Cache) (k : Nat) : Bool := c.any (fun e => e.key == k)
 def add (span now : Nat) (c : Cache) (k : Nat) : Cache :=
   if has c k then c else ⟨k, now⟩ :: sweep span now c
 
-/-- Answer an application gives when `IsRecognized` is called. -/
-inductive Ans | yes | no | err
+/-- The pair `(bool, error)` an application returns when `IsRecognized` is called — all four
+    combinations: `yes = (true, nil)`, `no = (false, nil)`, `err = (false, e)`, `yesErr = (true, e)`. -/
+inductive Ans | yes | no | err | yesErr
   deriving DecidableEq, Repr
 
 inductive Verdict | accept | reject | error
   deriving DecidableEq, Repr
 
-/-- The loop over `aap.applications`: verdict and number of `IsRecognized` calls made. -/
+/-- the application returned a non-nil error (checked first by the loop) -/
+def Ans.hasErr : Ans → Bool
+  | .err => true
+  | .yesErr => true
+  | _ => false
+
+/-- The loop over `aap.applications`: verdict and number of `IsRecognized` calls made.
+    `err != nil` is tested before `isRecognized`, so `(true, e)` is an error like `(false, e)`. -/
 def ask : List Ans → Verdict × Nat
   | [] => (.reject, 0)
   | .yes :: _ => (.accept, 1)
   | .err :: _ => (.error, 1)
+  | .yesErr :: _ => (.error, 1)
   | .no :: rest => ((ask rest).1, (ask rest).2 + 1)
 
 structure Cfg where
